@@ -264,7 +264,16 @@ def build_runner(report, race=False):
     sums = os.path.join(REPO, "go.sum")
     if os.path.exists(sums):
         shutil.copy(sums, os.path.join(src, "go.sum"))
-    cmd = ["go", "build", "-tags", "verif"] + (["-race"] if race else []) + ["-o", exe, "."]
+    # hook files under /verif/hooks (package twig, //go:build verif, add-only) that are not (yet) committed in the
+    # repository are added to the package through a build overlay; the working tree is never touched
+    ov = {}
+    for h in sorted(glob.glob(os.path.join(V, "hooks", "*.go"))):
+        tgt = os.path.join(os.path.abspath(REPO), os.path.basename(h))
+        if not os.path.exists(tgt):
+            ov[tgt] = h
+    ovf = os.path.join(WORK, "overlay.json")
+    json.dump({"Replace": ov}, open(ovf, "w"))
+    cmd = ["go", "build", "-tags", "verif", "-overlay", ovf] + (["-race"] if race else []) + ["-o", exe, "."]
     rc, out = sh(cmd, cwd=src, timeout=900)
     if rc != 0:
         report["build_errors"].append("go build -tags verif of the runner against %s failed:\n%s" % (REPO, out[-3000:]))
